@@ -7,7 +7,7 @@
    hence ([process_action_no_hang]) process_action with fuel f never returns Hang when the total potential of the queue is below f and
    the blocks are nested less than 8 deep.  P bounds the length of every plug list a foreach walks. *)
 From Coq Require Import List NArith ZArith Bool Lia.
-From PM Require Import Base.Bytes Base.Outcome Base.Dec Gen.GenConsts Gen.GenCbuf Model.ScriptAst Model.Enqueue Model.Script Model.Device
+From PM Require Import Base.Bytes Base.Outcome Base.Dec Gen.GenConsts Gen.GenCbuf Model.ScriptAst Model.Enqueue Model.Script Model.DeviceFuel Model.Device
   Proofs.DeviceProofs Proofs.DeviceStmt Proofs.DeviceStmtG Proofs.DeviceInv Proofs.DeviceInvG Proofs.DeviceMask.
 Import ListNotations.
 
@@ -16,30 +16,16 @@ Section Fuel.
   Variable compress : list text -> text.
   Variable sc : bool.
   Variable P : nat.
-  Hypothesis P_pos : (1 <= P)%nat.
 
-  Fixpoint cost (s : stmt) : nat :=
-    match s with
-    | ForeachPlug b | ForeachNode b => S (P * (fix go (l : list stmt) : nat := match l with [] => O | x :: r => cost x + go r end) b)
-    | IfOn b | IfOff b => S ((fix go (l : list stmt) : nat := match l with [] => O | x :: r => cost x + go r end) b)
-    | _ => 1%nat
-    end.
-  Fixpoint costs (b : list stmt) : nat := match b with [] => O | x :: r => (cost x + costs r)%nat end.
-  Lemma go_costs b : (fix go (l : list stmt) : nat := match l with [] => O | x :: r => (cost x + go r)%nat end) b = costs b.
+  Lemma go_costs b : (fix go (l : list stmt) : nat := match l with [] => O | x :: r => (cost P x + go r)%nat end) b = costs P b.
   Proof. induction b as [|x r IH]; [reflexivity|]. cbn [costs]. now rewrite <- IH. Qed.
-  Lemma cost_foreach b : cost (ForeachPlug b) = S (P * costs b) /\ cost (ForeachNode b) = S (P * costs b).
+  Lemma cost_foreach b : cost P (ForeachPlug b) = S (P * costs P b) /\ cost P (ForeachNode b) = S (P * costs P b).
   Proof. cbn [cost]. now rewrite go_costs. Qed.
-  Lemma cost_if b : cost (IfOn b) = S (costs b) /\ cost (IfOff b) = S (costs b).
+  Lemma cost_if b : cost P (IfOn b) = S (costs P b) /\ cost P (IfOff b) = S (costs P b).
   Proof. cbn [cost]. now rewrite go_costs. Qed.
-  Lemma cost_pos s : (1 <= cost s)%nat.
+  Lemma cost_pos s : (1 <= cost P s)%nat.
   Proof. destruct s; cbn [cost]; lia. Qed.
 
-  Fixpoint depth (s : stmt) : nat :=
-    match s with
-    | ForeachPlug b | ForeachNode b | IfOn b | IfOff b => S ((fix go (l : list stmt) : nat := match l with [] => O | x :: r => Nat.max (depth x) (go r) end) b)
-    | _ => O
-    end.
-  Fixpoint depths (b : list stmt) : nat := match b with [] => O | x :: r => Nat.max (depth x) (depths r) end.
   Lemma go_depths b : (fix go (l : list stmt) : nat := match l with [] => O | x :: r => Nat.max (depth x) (go r) end) b = depths b.
   Proof. induction b as [|x r IH]; [reflexivity|]. cbn [depths]. now rewrite <- IH. Qed.
   Lemma depth_body s b : (s = ForeachPlug b \/ s = ForeachNode b \/ s = IfOn b \/ s = IfOff b) -> depth s = S (depths b).
@@ -47,21 +33,6 @@ Section Fuel.
   Lemma depths_nth b i s : nth_error b i = Some s -> (depth s <= depths b)%nat.
   Proof. revert i. induction b as [|x r IH]; intros [|i] H; cbn [nth_error] in H; try discriminate; cbn [depths]; [inversion H; subst; lia|]. specialize (IH i H). lia. Qed.
 
-  Definition itr (e : ctx) : nat := match c_plugitr e with Some i => i | None => O end.
-  (* what the context still has to do: its current statement (a foreach counts the plugs it has not visited, an if-block in progress only
-     its closing round) and the statements behind it *)
-  Definition hc (e : ctx) : nat :=
-    match cur e with
-    | None => O
-    | Some s =>
-        (match s with
-         | ForeachPlug b | ForeachNode b => S ((P - itr e) * costs b)
-         | IfOn b | IfOff b => S (if c_processing e then O else costs b)
-         | _ => 1
-         end + costs (skipn (S (c_pos e)) (c_block e)))%nat
-    end.
-  Fixpoint hcs (l : list ctx) : nat := match l with [] => O | e :: r => (hc e + hcs r)%nat end.
-  Definition Phi (a : action) : nat := hcs (a_exec a).
 
   Lemma skipn_nth_cons {A} : forall (l : list A) i x, nth_error l i = Some x -> skipn i l = x :: skipn (S i) l.
   Proof. induction l as [|y r IH]; intros [|i] x H; cbn [nth_error] in H; try discriminate; [inversion H; reflexivity|]. cbn [skipn]. now apply IH. Qed.
@@ -69,17 +40,17 @@ Section Fuel.
   Proof. induction l as [|y r IH]; intros [|i] H; cbn [nth_error] in H; try discriminate; try reflexivity. cbn [skipn]. now apply IH. Qed.
 
   (* whatever the flags, a context owes at most the plain cost of its remaining statements; a fresh context owes exactly that *)
-  Lemma hc_le e : (hc e <= costs (skipn (c_pos e) (c_block e)))%nat.
+  Lemma hc_le e : (hc P e <= costs P (skipn (c_pos e) (c_block e)))%nat.
   Proof.
     unfold hc, cur. destruct (nth_error (c_block e) (c_pos e)) as [s|] eqn:E; [|lia].
     rewrite (skipn_nth_cons _ _ _ E). cbn [costs].
     destruct s; try (cbn [cost]; lia).
-    - rewrite (proj1 (cost_foreach _)). assert ((P - itr e) * costs body <= P * costs body)%nat by (apply Nat.mul_le_mono_r; lia). lia.
-    - rewrite (proj2 (cost_foreach _)). assert ((P - itr e) * costs body <= P * costs body)%nat by (apply Nat.mul_le_mono_r; lia). lia.
+    - rewrite (proj1 (cost_foreach _)). assert ((P - itr e) * costs P body <= P * costs P body)%nat by (apply Nat.mul_le_mono_r; lia). lia.
+    - rewrite (proj2 (cost_foreach _)). assert ((P - itr e) * costs P body <= P * costs P body)%nat by (apply Nat.mul_le_mono_r; lia). lia.
     - rewrite (proj1 (cost_if _)). destruct (c_processing e); lia.
     - rewrite (proj2 (cost_if _)). destruct (c_processing e); lia.
   Qed.
-  Lemma hc_ge e s : cur e = Some s -> (1 + costs (skipn (S (c_pos e)) (c_block e)) <= hc e)%nat.
+  Lemma hc_ge e s : cur e = Some s -> (1 + costs P (skipn (S (c_pos e)) (c_block e)) <= hc P e)%nat.
   Proof.
     intros E. unfold hc. rewrite E. destruct s; try lia; try (destruct (c_processing e); lia);
       match goal with |- context [((?x - ?y) * ?z)%nat] => generalize ((x - y) * z)%nat; intros; lia end.
@@ -107,10 +78,10 @@ Section Fuel.
   Definition no_push (e : ctx) (rest : list ctx) (a' : action) : Prop :=
     exists e', a_exec a' = e' :: rest /\ c_block e' = c_block e /\ c_pos e' = c_pos e /\ ctx_ok e'.
   Definition push (e : ctx) (rest : list ctx) (s : stmt) (a' : action) : Prop :=
-    exists c e' body, a_exec a' = c :: e' :: rest /\ (hc c + hc e' <= hc e)%nat /\ c_block e' = c_block e /\ c_pos e' = c_pos e /\ ctx_ok e' /\ ctx_ok c /\
+    exists c e' body, a_exec a' = c :: e' :: rest /\ (hc P c + hc P e' <= hc P e)%nat /\ c_block e' = c_block e /\ c_pos e' = c_pos e /\ ctx_ok e' /\ ctx_ok c /\
       c_block c = body /\ c_pos c = O /\ (s = ForeachPlug body \/ s = ForeachNode body \/ s = IfOn body \/ s = IfOff body).
 
-  Lemma hc_new b pl : hc (new_ctx b pl) = costs b.
+  Lemma hc_new b pl : hc P (new_ctx b pl) = costs P b.
   Proof.
     unfold hc, cur, new_ctx, itr. cbn [c_block c_pos c_plugitr c_processing]. destruct b as [|x r]; [reflexivity|]. cbn [nth_error skipn costs].
     destruct x; try reflexivity;
@@ -144,8 +115,8 @@ Section Fuel.
         split; [reflexivity|]. split.
         + rewrite hc_new. unfold hc, cur. cbn [c_block c_pos set_plugitr]. rewrite B1, B2. unfold cur in Ec. rewrite Ec.
           change (itr (set_plugitr (Some i') e0)) with i'. rewrite <- B3.
-          assert (((P - i') * costs body + costs body <= (P - itr e0) * costs body)%nat).
-          { replace ((P - i') * costs body + costs body)%nat with ((S (P - i')) * costs body)%nat by (cbn; lia). apply Nat.mul_le_mono_r. lia. }
+          assert (((P - i') * costs P body + costs P body <= (P - itr e0) * costs P body)%nat).
+          { replace ((P - i') * costs P body + costs P body)%nat with ((S (P - i')) * costs P body)%nat by (cbn; lia). apply Nat.mul_le_mono_r. lia. }
           destruct onlynodes; lia.
         + split; [exact B1|]. split; [exact B2|]. split; [split; [exact K1|exact K2]|]. split; [split; cbn; lia|].
           split; [reflexivity|]. split; [reflexivity|]. destruct onlynodes; auto.
@@ -234,14 +205,14 @@ Section Fuel.
   Definition dep_ok (e : ctx) : Prop := (depths (c_block e) <= D)%nat.
   Definition PL (a : action) : Prop := Forall (fun e => ctx_ok e /\ dep_ok e) (a_exec a).
 
-  Lemma hcs_app l1 l2 : hcs (l1 ++ l2) = (hcs l1 + hcs l2)%nat.
+  Lemma hcs_app l1 l2 : hcs P (l1 ++ l2) = (hcs P l1 + hcs P l2)%nat.
   Proof. induction l1 as [|x r IH]; [reflexivity|]. cbn [app hcs]. rewrite IH. lia. Qed.
 
   (* after the round: the last statement executed was the current statement of a context [ep] (same block, same position as the new top),
      and what the action owed BEFORE that last statement is at most what it owed at the start of the round *)
   Definition round_post (a a' : action) : Prop :=
     PL a' /\ exists ep e' rest', a_exec a' = e' :: rest' /\ c_block e' = c_block ep /\ c_pos e' = c_pos ep /\ (exists s, cur ep = Some s) /\
-      (hc ep + hcs rest' <= Phi a)%nat.
+      (hc P ep + hcs P rest' <= Phi P a)%nat.
 
   Lemma do_while_fuel : forall fuel now sd a store acc tmo,
     wf_action compress (sd_plugs sd) a -> PL a -> (length (sd_plugs sd) <= P)%nat ->
@@ -284,7 +255,7 @@ Section Fuel.
   Qed.
 
   (* a finished round followed by `advance` pays off at least one unit *)
-  Lemma advance_decreases a a' : round_post a a' -> (Phi (advance a') + 1 <= Phi a)%nat /\ PL (advance a').
+  Lemma advance_decreases a a' : round_post a a' -> (Phi P (advance a') + 1 <= Phi P a)%nat /\ PL (advance a').
   Proof.
     intros (Hpl & ep & e' & rest' & Ex & B1 & B2 & (s & Hs) & Hle). unfold advance. rewrite Ex.
     pose proof (hc_ge ep s Hs) as Hge.
@@ -298,8 +269,7 @@ Section Fuel.
   Qed.
 
   (* ---------- the queue ---------- *)
-  Fixpoint Psi_l (l : list action) : nat := match l with [] => O | a :: r => (Phi a + Psi_l r)%nat end.
-  Definition Psi (d : device) : nat := Psi_l (dv_acts d).
+  Definition Psi (d : device) : nat := Psi_l P (dv_acts d).
   Definition DPL (d : device) : Prop := Forall PL (dv_acts d) /\ (length (sd_plugs (dv d)) <= P)%nat.
 
   Lemma fail_and_reconnect_done now d act rest store tmo plans pre r : fail_and_reconnect now d act rest store tmo plans pre = Ok r -> exists d' st' t' pl e, r = PaDone d' st' t' pl e.
@@ -327,7 +297,7 @@ Section Fuel.
     destruct (reconnect now (set_acts [] d) tmo plans) as [[[[? ?] ?] ?]| | | |] eqn:E; try discriminate. intros H. inversion H; subst. exact (reconnect_nh _ _ _ _ _ E).
   Qed.
 
-  Lemma Phi_stamp a x : Phi (set_stamp x a) = Phi a.
+  Lemma Phi_stamp a x : Phi P (set_stamp x a) = Phi P a.
   Proof. reflexivity. Qed.
 
   Lemma pa_step_measure now d store tmo plans : DInvG compress d -> DPL d ->
@@ -363,7 +333,7 @@ Section Fuel.
     destruct (negb fin); [exact Logic.I|].
     destruct (Z.eqb (a_err act') ACT_ESUCCESS); [|apply Fail].
     destruct (advance_decreases act act' HF) as [Hdec Hpl'].
-    change (Phi act) with (Phi act0) in Hdec.
+    change (Phi P act) with (Phi P act0) in Hdec.
     assert (Hp' : (length (sd_plugs sd') <= P)%nat) by (rewrite (sg_plugs _ _ _ _ _ _ _ _ _ _ SP); exact Hp).
     destruct (a_exec (advance act')) as [|e2 r2] eqn:Eadv.
     - split.
@@ -388,19 +358,44 @@ Section Fuel.
     apply IH; [exact (tg_inv _ _ _ _ _ _ _ _ _ HI)|exact Hpl1|exact (tg_pos _ _ _ _ _ _ _ _ _ HI)|exact (conn_rel_rc _ _ _ _ (tg_conn _ _ _ _ _ _ _ _ _ HI) Hrc)|lia].
   Qed.
 
-  (* one device's share of dev_post_poll with the model's fuel (64 * 64): no Hang when the queue handed to _process_action (after the
-     descriptor, reconnect and ping steps: pp_front) owes less than 4096 statement rounds *)
+End Fuel.
+
+(* one device's share of dev_post_poll.  The model's fuel is pa_fuel d3 = 2 + psi d3 = 2 + Psi (number of plugs of d3) d3 for the queue d3
+   handed to _process_action (after the descriptor, reconnect and ping steps: pp_front): it never runs out, provided that queue walks plug
+   lists no longer than the device's own (DPL with P := the device's plug count) and blocks are nested less than 8 deep *)
+Section Pass.
+  Variable rmatch : text -> text -> option pmatch.
+  Variable compress : list text -> text.
+  Variable sc : bool.
+  Variable D : nat.
+  Hypothesis D_lt : (D < 8)%nat.
+
+  Lemma psi_Psi d : psi d = Psi (length (sd_plugs (dv d))) d.
+  Proof. reflexivity. Qed.
+
   Theorem post_poll_one_no_hang now d store tmo pin :
     DInvG compress d -> tmo_pos tmo -> (0 <= dv_retry_count d)%Z ->
-    (forall d3 t3 pl e12, pp_front now d tmo pin = Ok (d3, t3, pl, e12) -> DPL d3 /\ (Psi d3 < 4096)%nat) ->
+    (forall d3 t3 pl e12, pp_front now d tmo pin = Ok (d3, t3, pl, e12) -> DPL (length (sd_plugs (dv d3))) D d3) ->
     match post_poll_one rmatch compress sc now d store tmo pin with Hang _ => False | _ => True end.
   Proof.
     intros I Hp Hrc Hb. rewrite pp_split.
     destruct (pp_front_inv compress now d tmo pin I Hp Hrc) as (d3 & t3 & pl & e12 & E & I3 & S3 & P3 & R3).
-    rewrite E. destruct (Hb _ _ _ _ E) as [Hpl Hlt].
-    pose proof (process_action_no_hang (Nat.mul 64 64) now d3 store t3 pl e12 I3 Hpl P3 R3) as H.
-    assert (Hf : (Psi d3 < Nat.mul 64 64)%nat) by (change (Nat.mul 64 64) with 4096%nat; exact Hlt).
+    rewrite E. pose proof (Hb _ _ _ _ E) as Hpl.
+    pose proof (process_action_no_hang rmatch compress sc (length (sd_plugs (dv d3))) D D_lt (pa_fuel d3) now d3 store t3 pl e12 I3 Hpl P3 R3) as H.
+    assert (Hf : (Psi (length (sd_plugs (dv d3))) d3 < pa_fuel d3)%nat) by (unfold pa_fuel; rewrite psi_Psi; lia).
     specialize (H Hf).
-    destruct (process_action rmatch compress sc (Nat.mul 64 64) now d3 store t3 pl e12) as [[[[[? ?] ?] ?] ?]| | | |]; try exact Logic.I. exact H.
+    destruct (process_action rmatch compress sc (pa_fuel d3) now d3 store t3 pl e12) as [[[[[? ?] ?] ?] ?]| | | |]; try exact Logic.I. exact H.
   Qed.
-End Fuel.
+End Pass.
+
+(* ---------- the static condition on a configuration: every script nests its blocks at most DMAX = 7 deep (the do..while round of
+   _process_action in the model has fuel 8; Proofs/SpecBridge.v checks the condition for every shipped specification) ---------- *)
+Definition DMAX : nat := 7.
+Definition nest_ok (scripts : list (Z * list stmt)) : Prop := Forall (fun p => (depths (snd p) <= DMAX)%nat) scripts.
+Definition nest_b (scripts : list (Z * list stmt)) : bool := forallb (fun p => Nat.leb (depths (snd p)) DMAX) scripts.
+Lemma nest_b_ok scripts : nest_b scripts = true -> nest_ok scripts.
+Proof. unfold nest_b, nest_ok. rewrite forallb_forall, Forall_forall. intros H p Hp. apply Nat.leb_le. exact (H p Hp). Qed.
+Lemma nest_ok_b scripts : nest_ok scripts -> nest_b scripts = true.
+Proof. unfold nest_b, nest_ok. rewrite forallb_forall, Forall_forall. intros H p Hp. apply Nat.leb_le. exact (H p Hp). Qed.
+Lemma DMAX_lt : (DMAX < 8)%nat.
+Proof. unfold DMAX. lia. Qed.
